@@ -897,6 +897,20 @@ theorem infoTables_keys_nodup (s : State) (hw : Wf s) : ((infoTables s).map (·.
     intro h
     exact hab ((cat_of a x hx).symm.trans ((congrArg Key.cat h).trans (cat_of b y hy)))
 
+/-- only the exact lower-case name `information_schema` is the virtual schema: a QUOTED user schema
+    that differs from it in case ("INFORMATION_SCHEMA") is an ordinary schema — it and its tables
+    are listed, resolvable and droppable (test; the general statement is
+    `info_schema_lists_exactly_state`, whose only exception is `k.sch = infoSch`) -/
+example :
+    let IS : Ident := ⟨['I','N','F','O','R','M','A','T','I','O','N','_','S','C','H','E','M','A'], true⟩
+    let tt : Ident := ⟨['T','a','b','l','e','s'], true⟩
+    let c : List Col := [⟨['a'], ['I','n','t','3','2'], true⟩]
+    let s := (run true init [.createSchema [IS] false, .createTable [IS, tt] false false (.cols c)]).1
+    (defaultCat, normalize IS) ∈ infoSchemata s ∧
+    ((⟨defaultCat, normalize IS, normalize tt⟩ : Key), Kind.base) ∈ infoTables s ∧
+    (step true s (.select [IS, tt])).2 = .rows c ∧
+    (step true s (.dropTable [IS, tt] false)).2 = .dropped := by decide
+
 /-! ## 7. Non-vacuity: one history exercising every statement kind, quoting, qualification,
        IF [NOT] EXISTS, OR REPLACE, CASCADE, views over tables, and failures -/
 
